@@ -49,4 +49,36 @@ MUTANTS = [
                         Err(signal) => Ok(ActorLoopResult::stop(Self::handle_signal(""")]},
  {"name": "silent-rename-run-with-signal", "props": ["C03"], "expect": "silent",
   "edits": [("ractor/src/actor/actor_cell.rs", "pub(crate) async fn run_with_signal<T>(", "pub(crate) async fn run_with_signal<T>(\n        // renamed nothing, added comment\n")]},
+ {"name": "c19-revert-f1-fix-thread-local-decode", "props": ["C19"], "rules": ["C19.R5"],
+  "edits": [("ractor/src/thread_local/inner.rs",
+   """        let typed_msg = if msg.serialized_msg.is_some() {
+            match std::panic::catch_unwind(AssertUnwindSafe(|| TActor::Msg::from_boxed(msg))) {
+                Ok(Ok(message)) => message,
+                Ok(Err(_)) => {
+                    tracing::debug!(
+                        "Dropping serialized message that actor {:?} could not decode",
+                        myself.get_id()
+                    );
+                    return Ok(());
+                }
+                Err(_) => {
+                    tracing::debug!(
+                        "Dropping serialized message whose decoder panicked for actor {:?}",
+                        myself.get_id()
+                    );
+                    return Ok(());
+                }
+            }
+        } else {
+            TActor::Msg::from_boxed(msg)?
+        };
+
+        #[cfg(not(feature = "cluster"))]
+        let typed_msg = TActor::Msg::from_boxed(msg)?;
+""",
+   """        let typed_msg = TActor::Msg::from_boxed(msg)?;
+
+        #[cfg(not(feature = "cluster"))]
+        let typed_msg = TActor::Msg::from_boxed(msg)?;
+""")]},
 ]
